@@ -18,7 +18,7 @@ KINDS = ["K_LEAF", "K_LEAFV", "K_JUST", "K_JUST_FROM", "K_JVOD", "K_SIR", "K_SCH
          "K_THEN", "K_E2V", "K_V2E", "K_UPON_ERROR", "K_UPON_DONE", "K_LET_VALUE", "K_LET_ERROR", "K_LET_DONE", "K_FINALLY",
          "K_VIA", "K_TYPED_VIA", "K_ON", "K_SEQUENCE", "K_WHEN_ALL", "K_WHEN_ANY", "K_STOP_WHEN", "K_UNSTOPPABLE", "K_MATDEMAT",
          "K_DONE_AS_OPT", "K_RETRY_WHEN", "K_REPEAT", "K_LVWSS", "K_LVWST", "K_LVW", "K_ANY", "K_ALLOCATE", "K_DEFER",
-         "K_INTO_VARIANT", "K_WITH_QUERY", "K_WITH_ALLOC", "K_VARIANT"]
+         "K_INTO_VARIANT", "K_WITH_QUERY", "K_WITH_ALLOC", "K_VARIANT", "K_LEAF_AI", "K_LEAF_ND"]
 
 
 class Node:
@@ -41,23 +41,46 @@ class Gen:
         r = self.rng
         opts = []
         if vt == V:
-            opts += [("K_LEAF", 10), ("K_JUST", 2), ("K_JUST_FROM", 1)]
+            opts += [("K_LEAF", 10), ("K_JUST", 2), ("K_JUST_FROM", 1), ("K_LEAF_AI", 2), ("K_LEAF_ND", 2)]
             if ctx.get("let"): opts.append(("K_REF", 4))
             if ctx.get("err"): opts.append(("K_ERRREF", 4))
         else:
             opts += [("K_LEAFV", 10), ("K_JVOD", 2), ("K_SIR", 1), ("K_SCHEDULE", 2)]
             if ctx.get("ss"): opts.append(("K_REQSTOP", 5))
         if self.leaves >= self.max_leaves:
-            opts = [o for o in opts if o[0] not in ("K_LEAF", "K_LEAFV")] or opts
+            opts = [o for o in opts if o[0] not in ("K_LEAF", "K_LEAFV", "K_LEAF_AI", "K_LEAF_ND")] or opts
         opts = [o for o in opts if self.ok(o[0])] or [("K_LEAF" if vt == V else "K_LEAFV", 1)]
         k = r.choices([o[0] for o in opts], [o[1] for o in opts])[0]
-        if k in ("K_LEAF", "K_LEAFV"):
+        if k in ("K_LEAF", "K_LEAFV", "K_LEAF_AI", "K_LEAF_ND"):
             n = Node(k, vt, a=self.leaves); self.leaves += 1; return n
         if k == "K_SCHEDULE": return Node(k, vt, a=r.randrange(1, 4))
         if k == "K_REF": return Node(k, vt, a=("let", r.choice(ctx["let"])))
         if k == "K_ERRREF": return Node(k, vt, a=("err", r.choice(ctx["err"])))
         if k == "K_REQSTOP": return Node(k, vt, a=("ss", r.choice(ctx["ss"])))
         return Node(k, vt)
+
+    @staticmethod
+    def can_error(n):
+        if n.kind in ("K_JUST", "K_JVOD", "K_SIR", "K_SCHEDULE", "K_ERRREF"):
+            return False
+        if n.kind in ("K_UNSTOPPABLE", "K_ALLOCATE", "K_WITH_QUERY", "K_MATDEMAT", "K_LVWST", "K_LVWSS", "K_LVW", "K_DEFER"):
+            return Gen.can_error(n.children[-1])
+        if n.kind in ("K_VIA", "K_TYPED_VIA", "K_FINALLY", "K_STOP_WHEN"):
+            return Gen.can_error(n.children[0])
+        if n.kind == "K_ON":
+            return Gen.can_error(n.children[1])
+        if n.kind == "K_SEQUENCE":
+            return any(Gen.can_error(c) for c in n.children)
+        return True
+
+    def gen_err(self, vt, depth, ctx):
+        """a child whose sender type can complete with an error (adaptors that consume errors need one to compile)"""
+        for _ in range(6):
+            n = self.gen(vt, depth, ctx)
+            if self.can_error(n):
+                return n
+        n = Node("K_LEAF" if vt == V else "K_LEAFV", vt, a=self.leaves); self.leaves += 1
+        return n
 
     def gen(self, vt, depth, ctx):
         """ctx: dict(let=[nodes], err=[nodes], ss=[nodes], copyable=bool)"""
@@ -76,14 +99,17 @@ class Gen:
                     ("K_WHEN_ANY", 2), ("K_STOP_WHEN", 3), ("K_UNSTOPPABLE", 1), ("K_MATDEMAT", 2), ("K_RETRY_WHEN", 2), ("K_REPEAT", 4), ("K_LVWSS", 2),
                     ("K_ANY", 2), ("K_ALLOCATE", 1), ("K_DEFER", 1), ("K_WITH_QUERY", 1)]
         if cp:
-            opts = [o for o in opts if o[0] not in ("K_ANY", "K_WHEN_ANY", "K_LVWSS", "K_LVWST", "K_LVW", "K_ALLOCATE")]
+            # not lvalue-connectable (or not copyable) in this library version
+            opts = [o for o in opts if o[0] not in ("K_ANY", "K_WHEN_ANY", "K_LVWSS", "K_LVWST", "K_LVW", "K_ALLOCATE", "K_LET_ERROR", "K_LET_DONE", "K_UPON_DONE")]
         opts = [o for o in opts if self.ok(o[0])]
         if not opts:
             return self.leaf(vt, ctx)
         k = r.choices([o[0] for o in opts], [o[1] for o in opts])[0]
         d = depth + 1
         sub = lambda t, c=ctx: self.gen(t, d, c)
-        if k in ("K_THEN", "K_UPON_ERROR", "K_UPON_DONE", "K_DONE_AS_OPT", "K_INTO_VARIANT"):
+        if k == "K_UPON_ERROR":
+            return Node(k, V, [self.gen_err(V, d, ctx)])
+        if k in ("K_THEN", "K_UPON_DONE", "K_DONE_AS_OPT", "K_INTO_VARIANT"):
             return Node(k, V, [sub(V)])
         if k == "K_E2V": return Node(k, V, [sub(E)])
         if k == "K_V2E": return Node(k, E, [sub(V)])
@@ -102,7 +128,7 @@ class Gen:
         if k == "K_LET_ERROR":
             n = Node(k, vt)
             c2 = dict(ctx); c2["err"] = ctx.get("err", []) + [n]
-            n.children = [sub(vt), self.gen(vt, d, c2)]
+            n.children = [self.gen_err(vt, d, ctx), self.gen(vt, d, c2)]
             return n
         if k == "K_LET_DONE":
             return Node(k, vt, [sub(vt), sub(vt)])
@@ -128,7 +154,7 @@ class Gen:
             c1 = dict(ctx); c1["copyable"] = True
             c2 = dict(ctx); c2["err"] = ctx.get("err", []) + [n]
             # the trigger is an effect; it may not refer to the error (ERRREF produces a value)
-            n.children = [self.gen(vt, d, c1), self.gen(E, d, c2)]
+            n.children = [self.gen_err(vt, d, c1), self.gen(E, d, c2)]
             return n
         if k == "K_REPEAT":
             c1 = dict(ctx); c1["copyable"] = True
@@ -158,22 +184,24 @@ def cpp(n):
     ref = lambda: n.a[1].nid
     if k == "K_LEAF": return "e.leaf(%d)" % n.a
     if k == "K_LEAFV": return "e.leafv(%d)" % n.a
+    if k == "K_LEAF_AI": return "e.leaf_ai(%d)" % n.a
+    if k == "K_LEAF_ND": return "e.leaf_nd(%d)" % n.a
     if k == "K_JUST": return "unifex::just(e.val(%d))" % nid
     if k == "K_JUST_FROM": return "unifex::just_from(e.jf(%d))" % nid
     if k == "K_JVOD": return "unifex::just_void_or_done(e.flag(%d))" % nid
     if k == "K_SIR": return "unifex::stop_if_requested()"
     if k == "K_SCHEDULE": return "unifex::schedule(e.sched(%d))" % n.a
-    if k == "K_REF": return "unifex::just_from([e, pv = &v_%d] { return e.copy(*pv); })" % ref()
+    if k == "K_REF": return "unifex::just_from([=] { return e.copy(*p_%d); })" % ref()
     if k == "K_ERRREF": return "unifex::just(e.errval(%d))" % ref()
-    if k == "K_REQSTOP": return "unifex::just_from([e] { e.req_ss(%d); })" % ref()
+    if k == "K_REQSTOP": return "unifex::just_from([=] { e.req_ss(%d); })" % ref()
     if k == "K_THEN": return "unifex::then(%s, e.fn(%d))" % (c[0], nid)
     if k == "K_E2V": return "unifex::then(%s, e.vfn(%d))" % (c[0], nid)
     if k == "K_V2E": return "unifex::then(%s, e.sink(%d))" % (c[0], nid)
     if k == "K_UPON_ERROR": return "unifex::upon_error(%s, e.efn(%d))" % (c[0], nid)
     if k == "K_UPON_DONE": return "unifex::upon_done(%s, e.dfn(%d))" % (c[0], nid)
-    if k == "K_LET_VALUE": return "unifex::let_value(%s, [e](T& v_%d) mutable { e.bind_val(%d, v_%d); E::call(%d); return %s; })" % (c[0], nid, nid, nid, nid, c[1])
-    if k == "K_LET_ERROR": return "unifex::let_error(%s, [e](auto&& err) mutable { e.bind_err(%d, err); E::call(%d); return %s; })" % (c[0], nid, nid, c[1])
-    if k == "K_LET_DONE": return "unifex::let_done(%s, [e]() mutable { E::call(%d); return %s; })" % (c[0], nid, c[1])
+    if k == "K_LET_VALUE": return "unifex::let_value(%s, [=](T& v_%d) mutable { T* p_%d = &v_%d; (void)p_%d; e.bind_val(%d, v_%d); E::call(%d); return %s; })" % (c[0], nid, nid, nid, nid, nid, nid, nid, c[1])
+    if k == "K_LET_ERROR": return "unifex::let_error(%s, [=](auto&& err) mutable { e.bind_err(%d, err); E::call(%d); return %s; })" % (c[0], nid, nid, c[1])
+    if k == "K_LET_DONE": return "unifex::let_done(%s, [=]() mutable { E::call(%d); return %s; })" % (c[0], nid, c[1])
     if k == "K_FINALLY": return "unifex::finally(%s, %s)" % (c[0], c[1])
     if k == "K_VIA": return "unifex::via(%s, e.sched(%d))" % (c[0], n.a)
     if k == "K_TYPED_VIA": return "unifex::typed_via(%s, e.sched(%d))" % (c[0], n.a)
@@ -185,14 +213,14 @@ def cpp(n):
     if k == "K_UNSTOPPABLE": return "unifex::unstoppable(%s)" % c[0]
     if k == "K_MATDEMAT": return "unifex::dematerialize(unifex::materialize(%s))" % c[0]
     if k == "K_DONE_AS_OPT": return "unifex::then(unifex::done_as_optional(%s), e.optfn(%d))" % (c[0], nid)
-    if k == "K_RETRY_WHEN": return "unifex::retry_when(%s, [e](auto&& err) mutable { e.bind_err(%d, err); E::call(%d); return %s; })" % (c[0], nid, nid, c[1])
+    if k == "K_RETRY_WHEN": return "unifex::retry_when(%s, [=](auto&& err) mutable { e.bind_err(%d, err); E::call(%d); return %s; })" % (c[0], nid, nid, c[1])
     if k == "K_REPEAT": return "unifex::repeat_effect_until(%s, e.pred(%d))" % (c[0], nid)
-    if k == "K_LVWSS": return "unifex::let_value_with_stop_source([e](auto& ss) mutable { e.bind_ss(%d, &ss); return %s; })" % (nid, c[0])
-    if k == "K_LVWST": return "unifex::let_value_with_stop_token([e](unifex::inplace_stop_token) mutable { return %s; })" % c[0]
-    if k == "K_LVW": return "unifex::let_value_with([e] { return e.lvw_state(%d); }, [e](T& v_%d) mutable { e.bind_val(%d, v_%d); return %s; })" % (nid, nid, nid, nid, c[0])
+    if k == "K_LVWSS": return "unifex::let_value_with_stop_source([=](auto& ss) mutable { e.bind_ss(%d, &ss); return %s; })" % (nid, c[0])
+    if k == "K_LVWST": return "unifex::let_value_with_stop_token([=](unifex::inplace_stop_token) mutable { return %s; })" % c[0]
+    if k == "K_LVW": return "unifex::let_value_with([=] { return e.lvw_state(%d); }, [=](T& v_%d) mutable { T* p_%d = &v_%d; (void)p_%d; e.bind_val(%d, v_%d); return %s; })" % (nid, nid, nid, nid, nid, nid, nid, c[0])
     if k == "K_ANY": return ("unifex::any_sender_of<T>(%s)" if n.vt == V else "unifex::any_sender_of<>(%s)") % c[0]
     if k == "K_ALLOCATE": return "unifex::allocate(%s)" % c[0]
-    if k == "K_DEFER": return "unifex::defer([e]() mutable { E::call(%d); return %s; })" % (nid, c[0])
+    if k == "K_DEFER": return "unifex::defer([=]() mutable { E::call(%d); return %s; })" % (nid, c[0])
     if k == "K_INTO_VARIANT": return "unifex::then(unifex::into_variant(%s), e.ivfn(%d))" % (c[0], nid)
     if k == "K_WITH_QUERY": return "unifex::with_query_value(%s, sr::verif_tag, long(%d))" % (c[0], nid)
     raise AssertionError(k)
